@@ -174,6 +174,7 @@ def run(ctx):
     fallible_results_not_unwrapped(ctx, "R16-o")
     panic_arms_are_excluded_by_callers(ctx, "R16-p")
     kind_comparators_are_total_orders(ctx, "R16-q")
+    use_path_heads_are_guarded(ctx, "R16-r")
     token_loops_make_progress(ctx, "R16-k")
     dependency_preconditions(ctx, "R16-l")
     stdin_never_reaches_file_emitters(ctx, "R16-m")
@@ -1172,3 +1173,38 @@ def kind_comparators_are_total_orders(ctx, rid):
             r.violation(rid, "the kind comparator in %s is not a consistent order" % name,
                         "; ".join(sorted(set(problems))[:4]), [where])
     r.floor(rid, n, 1, "comparators that branch on the kinds of both arguments")
+
+
+def use_path_heads_are_guarded(ctx, rid):
+    """R16-r: `path[0]` of a use tree is read only where the path is known not to be empty"""
+    from common import bool_branches, edge_dominates
+    p, r = ctx.p, ctx.r
+    r.rule(rid, "an import of nothing (`use {};`, `use a::{};`) is legal Rust and normalises to a UseTree with an *empty* path.  "
+                "Every constant index into a `Vec<UseSegment>` (`ut.path[0]`) in the workspace is therefore dominated by the false "
+                "edge of an `is_empty()` test of a use-tree path (or the true edge of a length comparison): the index panics "
+                "otherwise, outside every catch_unwind, on valid input")
+    n = 0
+    for f in p.by_crate["rustfmt_nightly"]:
+        if "::tests::" in f.id or "::test::" in f.id:
+            continue
+        for c in f.calls():
+            if not (c.declared or c.name).endswith("Index::index") or len(c.args) < 2 or c.args[1][0] != "k" \
+                    or not isinstance(c.args[1][2], int) or isinstance(c.args[1][2], bool):
+                continue
+            ga = " ".join(c.ga)
+            if "imports::UseSegment" not in ga.split(",")[0]:
+                continue
+            n += 1
+            guarded = False
+            for d in f.calls():
+                last = d.name.rsplit("::", 1)[-1]
+                if last == "is_empty" and d.args and d.args[0][0] != "k" and not d.dest[1] and ("Vec" in d.name or "[T]" in d.name or "slice" in d.name):
+                    for sw, tt, ff in bool_branches(f, d.dest[0]):
+                        if ff is not None and edge_dominates(f, (sw, ff), c.bb):
+                            guarded = True
+            r.instance(rid, "%s reads path[%d]" % (short(f.id).split("::{closure")[0], c.args[1][2]), "ok" if guarded else "violation", c.loc())
+            if not guarded:
+                r.violation(rid, "%s indexes a use-tree path without knowing it is non-empty" % short(f.id).split("::{closure")[0],
+                            "`path[%d]` is reached on a path on which no `is_empty()` answered false: `use {};` panics here"
+                            % c.args[1][2], [c.loc()])
+    r.floor(rid, n, 3, "constant indexings of use-tree paths")
